@@ -119,6 +119,7 @@ def parseHexFloat? (s : String) : Option Float :=
   | '0' :: 'x' :: rest =>
     let mant := rest.takeWhile (· != 'p')
     let ex := (rest.dropWhile (· != 'p')).drop 1
+    let ex := match ex with | '+' :: r => r | r => r
     let ip := mant.takeWhile (· != '.')
     let fp := (mant.dropWhile (· != '.')).drop 1
     match (ip ++ fp).mapM hexDigit?, (String.ofList ex).toInt? with
